@@ -4,10 +4,12 @@ import common, fns, sweeps, crops, labelled
 from common import quiet, canon
 
 PROP = 'C12'
-LEAN_MODULES = ['XyzProofs.Props.C12']
+LEAN_MODULES = ['XyzProofs.Props.C12', 'XyzProofs.Refine.Reap']
 THEOREMS = ['Crop.c12_err_leaves_crop', 'Crop.c12_deleted_iff', 'Crop.c12_retry_exact', 'Crop.c12_options',
-            'Crop.reapLinear_congr', 'Crop.reapLinear_dir']
-ANCHORS = ['cleanUpDefault', 'harvestDefersCleanup', 'samplesDefersCleanup', 'isReady']
+            'Crop.reapLinear_congr', 'Crop.reapLinear_dir',
+            'Refine.calcCleanUp_refines', 'Refine.checkReady_refines']
+ANCHORS = ['cleanUpDefault', 'harvestDefersCleanup', 'samplesDefersCleanup', 'isReady',
+           'calcCleanUp', 'checkReady']
 RULE = ("the full table clean_up in {None, True, False} x allow_incomplete x wait x farmer kind {raw, Runner, Harvester, "
         "Sampler} x failure stage {none, incomplete crop, unreadable result, wrong output description, harvester merge "
         "conflict, save error} (stages that do not apply to a kind are skipped; wait is only combined with fully grown "
